@@ -79,6 +79,7 @@ class Executor:
         self.bindings: dict[str, Any] = {}
         self.inline_depth = 0
         self.fn_stack: list[str] = []
+        self.loop_ids: dict = {}  # (function, line, column) of a loop / comprehension -> ordinal given to Spec.inv
         self._solver = z3.Solver()
         self._solver.set("timeout", 1000)
         self.covers = 0
@@ -128,6 +129,16 @@ class Executor:
             f.assume(z3.Not(cond))
             out.append((False, f))
         return out
+
+    def register_loops(self, fn, qualname):
+        """Loop ordinals are syntactic: the loops and comprehensions of a function are numbered in source order when it is entered."""
+        nodes = [n for n in ast.walk(fn) if isinstance(n, (ast.For, ast.While, ast.ListComp, ast.GeneratorExp, ast.SetComp))]
+        for n in sorted(nodes, key=lambda n: (n.lineno, n.col_offset)):
+            self.loop_ids.setdefault((qualname, n.lineno, n.col_offset), len(self.loop_ids))
+
+    def loop_ordinal(self, node):
+        key = getattr(node, "_loop_key", None) or (self.fn_stack[-1] if self.fn_stack else "<main>", node.lineno, node.col_offset)
+        return self.loop_ids.setdefault(key, len(self.loop_ids))
 
     def oblige(self, st: State, kind: str, name: str, goal, tag="property", expect="valid"):
         oid = f"{self.spec.prop}/{self.spec.short}/{kind}#{name}"
@@ -640,6 +651,18 @@ class Executor:
                 val = z3.If(st.dict_has(base.z, key), st.dict_val(base.z, key), z3.IntVal(0))
                 st.dict_store(base.z, z3.Store(st.dict_dom(base.z), key, z3.BoolVal(True)), z3.Store(st.dict_vals(base.z), key, val))
                 return [Res("val", lift_int(val), st)]
+            if k == "dict" and "defaultdict_dict" in base.kinds:
+                # collections.defaultdict(dict): a missing key is bound to a fresh empty dict, which is returned
+                out = []
+                key = z_int(idx)
+                for has, bs in self.split(st, st.dict_has(base.z, key)):
+                    if not has:
+                        bs.trace.append("defaultdict-miss")
+                        nr = bs.new_object("dict")
+                        bs.dict_store(nr, z3.K(z3.IntSort(), z3.BoolVal(False)), z3.K(z3.IntSort(), z3.IntVal(0)))
+                        bs.dict_store(base.z, z3.Store(bs.dict_dom(base.z), key, z3.BoolVal(True)), z3.Store(bs.dict_vals(base.z), key, nr))
+                    out.append(Res("val", self._elem(bs.dict_val(base.z, key), "ref", "dict", bs), bs))
+                return out
             if k == "dict":
                 out = []
                 key = z_int(idx)
@@ -663,6 +686,11 @@ class Executor:
             return lift_int(z)
         if ek == "bool":
             return VBool(z != 0)
+        if ek == "pair":
+            from .values import FST, SND
+
+            c1, c2 = (ecls.split(",") + [None, None])[:2] if ecls else (None, None)
+            return VTuple([VRef(FST(z), c1), VRef(SND(z), c2)])
         if ecls in ("set", "list", "dict"):
             # container-valued element (e.g. dict[Block, set[Block]])
             return VRef(z, ecls, (ecls, "ref") if ecls != "dict" else ("dict", "ref", "ref"))
